@@ -2830,13 +2830,17 @@ static int build_environ (hawk_rtx_t* rtx, int gbl_id, env_char_t* envarr[])
 			eq = hawk_find_bchar_in_bcstr(envarr[count], '=');
 			if (HAWK_UNLIKELY(!eq || eq == envarr[count])) continue;
 
-			*eq = '\0';
-
-			/* dupbtoucstr() may fail for invalid encoding. as the environment
-			 * variaables are not under control, call mbstowcsalldup() instead
+			/* the environment belongs to the whole process: never write to it, not even
+			 * temporarily. another thread opening a runtime of its own hawk object
+			 * (or calling getenv()) reads the same strings at the same time, and the
+			 * early return below used to leave the '=' erased for good. convert the
+			 * name by its length instead.
+			 *
+			 * dupbtoucstr() may fail for invalid encoding. as the environment
+			 * variaables are not under control, convert with the 'all' flag
 			 * to go on despite encoding failure */
 
-			kptr = hawk_rtx_dupbtoucstr(rtx, envarr[count], &klen, 1);
+			kptr = hawk_rtx_dupbtouchars(rtx, envarr[count], eq - envarr[count], &klen, 1);
 			vptr = hawk_rtx_dupbtoucstr(rtx, eq + 1, &vlen, 1);
 			if (HAWK_UNLIKELY(!kptr || !vptr))
 			{
@@ -2845,8 +2849,6 @@ static int build_environ (hawk_rtx_t* rtx, int gbl_id, env_char_t* envarr[])
 				hawk_rtx_refdownval (rtx, v_env);
 				return -1;
 			}
-
-			*eq = '=';
 		#else
 			eq = hawk_find_uchar_in_ucstr(envarr[count], '=');
 			if (HAWK_UNLIKELY(!eq || eq == envarr[count])) continue;
